@@ -1,11 +1,11 @@
 package main
 
 import (
+	"bytes"
+	"fmt"
 	"github.com/Oneledger/protocol/consensus"
 	"github.com/Oneledger/protocol/data/balance"
 	"github.com/Oneledger/protocol/data/delegation"
-	"bytes"
-	"fmt"
 	"os"
 	"sort"
 	"strings"
